@@ -69,8 +69,9 @@ func (b *verifRecBackend) Write(ctx context.Context, key []byte, v interface{}) 
 // cancellable caller context (stands for context.WithCancel/WithDeadline contexts)
 type verifCallerCtx struct {
 	context.Context
-	cancelled *bool
-	done      chan struct{}
+	cancelled  *bool
+	done       chan struct{}
+	noDeadline bool // a cancel-only context (context.WithCancel): Deadline() reports none
 }
 
 func (c verifCallerCtx) Err() error {
@@ -79,8 +80,13 @@ func (c verifCallerCtx) Err() error {
 	}
 	return nil
 }
-func (c verifCallerCtx) Done() <-chan struct{}       { return c.done }
-func (c verifCallerCtx) Deadline() (time.Time, bool) { return time.Unix(0, 1), true }
+func (c verifCallerCtx) Done() <-chan struct{} { return c.done }
+func (c verifCallerCtx) Deadline() (time.Time, bool) {
+	if c.noDeadline {
+		return time.Time{}, false
+	}
+	return time.Unix(0, 1), true
+}
 
 // reference: "When existing ttl is updated minimal non-zero value is kept."
 func verifRefMinNonZero(existing, ttl int64) int64 {
@@ -199,7 +205,7 @@ func verifH_C06_StaleRefresh() {
 
 	cancelled := cancelBefore
 	base := context.WithValue(context.Background(), verifUserKey{}, "user")
-	var ctx context.Context = verifCallerCtx{Context: base, cancelled: &cancelled, done: make(chan struct{})}
+	var ctx context.Context = verifCallerCtx{Context: base, cancelled: &cancelled, done: make(chan struct{}), noDeadline: verifBool("callerCtxCancelOnly")}
 	if callerHasCell {
 		ctx = WithTTL(ctx, time.Duration(ttlC), false)
 	}
